@@ -852,7 +852,21 @@ def clause_max_monotone(R, F):
                 continue
             tt = origin(fn, t["discr"])
             if mentions(tt, "ConfigDatabase::get") and mentions(tt, "MAX_BLOCK_NUMBER_KEY"):
-                guarded = True
+                # ... and the edge taken to the store says new > stored (or >=): `!=` also passes a *smaller* number
+                from guards import edge_forms as _ef
+
+                def role(a_):
+                    if mentions(a_, "ConfigDatabase::get") and mentions(a_, "MAX_BLOCK_NUMBER_KEY"):
+                        return "stored"
+                    if mentions(a_, "block_number"):
+                        return "new"
+                    return None
+                for (b_, s_, fm_, _ln) in _ef(fn):
+                    if b_ != a or s_ != s:
+                        continue
+                    r_, k_, rel_, bad_ = fm_.roles(role)
+                    if not bad_ and rel_ == "<=" and r_ == {"stored": 1, "new": -1} and k_ in (0, 1):
+                        guarded = True
         R.ob(through_max or guarded, "MONO", c.where(), "MONO|%s|max_block_number" % fn.name.split("::")[-1],
              "the recorded maximum block number is overwritten unconditionally with `%s`: after a reorg and one new block it "
              "moves backwards, so a later reorg deeper than the pruned history is accepted" % vs[:80],
